@@ -721,7 +721,14 @@ def run(ctx):
     gen = meta = None
     try:
         gen, funcs, meta, _tr = matgen.translate_all(REPO)
-        ctx.cov["translated_functions"] = funcs
+        from translate import pyunc
+        try:
+            unc_text, unc_funcs = pyunc.emit(REPO)      # the uncertainty = covariance + mean_covariance wrappers
+        except pyunc.Unsupported as u:
+            raise matgen.Unsupported("uncertainty wrappers: %s" % u)
+        gen = dict(gen)
+        gen["gen/C06Unc.v"] = unc_text
+        ctx.cov["translated_functions"] = funcs + unc_funcs
         ctx.build_props(gen, extra_targets=["lib/MxFloat.vo"])
     except matgen.Unsupported as u:
         ctx.broken.append(Broken("translation", "matrix subset", str(u)))
